@@ -176,7 +176,7 @@ def run(ctx):
     for h in HSL_FG:
         jobs.append(("bg", "hsla", h, ALPHAS, texts, 0))
     n = 0
-    for cnt, vs in ctx.pmap(chunk, jobs, chunksize=2):
+    for cnt, vs in ctx.pmap_forked(chunk, jobs, chunksize=2):
         n += cnt
         ctx.add_violations(vs)
     ctx.sub("translucent_text_and_background", states=n, transitions=3 * n, evaluations=n, traces=n, distinct_nontrivial=n * 7 // 9,
